@@ -259,6 +259,19 @@ class _Simplify(ast.NodeTransformer):
         return n
 
 
+    def visit_Call(self, n: ast.Call):
+        """f(*(a, b, c)) -> f(a, b, c)"""
+        self.generic_visit(n)
+        if any(isinstance(a, ast.Starred) and isinstance(a.value, (ast.Tuple, ast.List)) and not any(isinstance(x, ast.Starred) for x in a.value.elts) for a in n.args):
+            args = []
+            for a in n.args:
+                if isinstance(a, ast.Starred) and isinstance(a.value, (ast.Tuple, ast.List)) and not any(isinstance(x, ast.Starred) for x in a.value.elts):
+                    args.extend(a.value.elts)
+                else:
+                    args.append(a)
+            n.args = args
+        return n
+
     def visit_ListComp(self, n: ast.ListComp):
         """[f(x) for x in (a, b, c)] over a literal tuple/list, no filter -> [f(a), f(b), f(c)]"""
         self.generic_visit(n)
